@@ -91,8 +91,8 @@ theorem codec_stream_framing (n : Nat) (ms : List (Bytes × (String × Rec (Elem
   have s1 := C02.sw_framing (codecU n) ms chunks (fun p hp => (hwf p hp).toSWF) hseg
   exact ⟨c1.1, c1.2.1, s1.1, s1.2.1⟩
 
-/-! non-vacuity: the port-mod example record of `C01` is such a message (type 15) -/
-example : messages.lookup 15 = some "ofp_port_mod" ∧ (cls "ofp_port_mod").isSome = true := by decide
+/-! non-vacuity (the port-mod example record of `C01` is such a message, type 15) is a statement about a particular generated
+class: it lives in `Properties/C01Pins.lean` (`codec_message_nonvacuous`), which the harness builds separately. -/
 
 /-! ## `WF` for the hand-modelled messages: packet-out, statistics (body dispatch), `nxt_packet_in`, `nx_flow_mod`
 
